@@ -12,6 +12,7 @@ import (
 	"io/fs"
 	"log/slog"
 	"regexp"
+	"syscall"
 	"time"
 
 	// imports required for go-digest
@@ -417,8 +418,8 @@ func referrerListDedup(rl []types.Descriptor) []types.Descriptor {
 // gcReadFailed reports whether err is a failure to access the storage,
 // rather than the answer that a blob does not exist or cannot exist.
 func gcReadFailed(err error) bool {
-	var pe *fs.PathError
-	return errors.As(err, &pe) && !errors.Is(err, fs.ErrNotExist)
+	var en syscall.Errno
+	return errors.As(err, &en) && !errors.Is(err, fs.ErrNotExist)
 }
 
 func repoGarbageCollect(repo Repo, conf config.Config, index types.Index, locked bool) (types.Index, bool, error) {
